@@ -69,6 +69,12 @@ package node
 //@     || (bcop(i) == bytecode.MOV && (fetchable(bck(i, 0), bca(i, 0), nds) || bck(i, 0) == bytecode.AddrTmp)
 //@         && (bck(i, 1) == bytecode.AddrLcl || bck(i, 1) == bytecode.AddrTmp || (bck(i, 1) == bytecode.AddrGbl && fetchable(bck(i, 1), bca(i, 1), nds))))
 //
+// An instruction stays well-formed when the data segment grows.
+//@ lemma wf_mono [C05,C12] auto
+//@   vars x bytecode.Type, n1 int, n2 int
+//@   requires wfInstr(x, n1) && n1 <= n2
+//@   ensures wfInstr(x, n2)
+//
 // ---- K: the contract every byteCode implementation is proved against ---------------------------
 //@ pred crOK(cr compResult) bool := cr.CS != nil && cr.DS != nil && cr.Dbg != nil && *cr.Dbg != nil
 //@ pred csKept(cr compResult) bool := len(*cr.CS) >= old(len(*cr.CS)) && (forall i :: 0 <= i && i < old(len(*cr.CS)) ==> (*cr.CS)[i] == old((*cr.CS)[i]))
